@@ -465,13 +465,18 @@ func c12Verifier(r *Run, t *tape.Tape) {
 			broken = "258-wrong-type"
 		case 2:
 			lbl := []int64{258, 259, 260}[t.Choose(3, "c12.v.unprot.lbl")]
-			layer.Unprot = append(removeLabel(layer.Unprot, lbl), KV{refcbor.Int(lbl), []*refcbor.Item{refcbor.Int(-16), refcbor.Tstr("a/b"), refcbor.Uint(7)}[t.Choose(3, "c12.v.unprot.val")]})
+			layer.Unprot = append(removeLabel(layer.Unprot, lbl), KV{refcbor.Int(lbl), []*refcbor.Item{refcbor.Int(-16), refcbor.Tstr("a/b"), refcbor.Uint(7), refcbor.Nil(), refcbor.Undefined(), refcbor.Bstr(nil), refcbor.Array(), refcbor.Map(), refcbor.Bool(false)}[t.Choose(9, "c12.v.unprot.val")]})
 			broken = "governed-label-in-unprotected"
 		case 3:
 			if t.Bool(1, 2, "c12.v.ct3.bucket") {
 				layer.Prot = append(removeLabel(layer.Prot, 3), KV{refcbor.Int(3), genContentType(t)})
 			} else {
-				layer.Unprot = append(removeLabel(layer.Unprot, 3), KV{refcbor.Int(3), genContentType(t)})
+				// (a blanked parameter - null, undefined - is a parameter all the same)
+				ctv := genContentType(t)
+				if t.Bool(1, 4, "c12.v.ct3.blank") {
+					ctv = []*refcbor.Item{refcbor.Nil(), refcbor.Undefined()}[t.Choose(2, "c12.v.ct3.blank.v")]
+				}
+				layer.Unprot = append(removeLabel(layer.Unprot, 3), KV{refcbor.Int(3), ctv})
 			}
 			broken = "content-type-present"
 		case 4:
